@@ -2,6 +2,7 @@ import ScVerif.Base.Line
 import ScVerif.C14.Acceptor
 import ScVerif.C14.CompositeDrv
 import ScVerif.C14.GauDrv
+import ScVerif.C14.SpellDrv
 /-! Driver handler for C14 (stateful): one observation per line, answers the acceptor's verdict. -/
 namespace ScVerif.C14
 open ScVerif.Line
@@ -58,6 +59,9 @@ structure DrvState where
 
 def handleAll (s : DrvState) (toks : List String) : DrvState × String :=
   match gauHandle toks with
+  | some out => (s, out)
+  | none =>
+  match spellHandle toks with
   | some out => (s, out)
   | none =>
   match chandle s.sim toks with
